@@ -211,6 +211,16 @@ def thin(rng, sectors, sparsity):
 SPARSITIES = (0.0, 0.0, 0.2, 0.5, 0.8, "one")
 
 
+def as_label(kind, n):
+    """The n-th label of a kind: ints, lattice-site-like tuples, or strings (order preserving
+    within a kind; kinds are never mixed in one computation)."""
+    if kind == "tuple":
+        return (n // 100, n % 100)
+    if kind == "str":
+        return "s%07d" % n
+    return n
+
+
 def label_for(rng, kind="int"):
     if kind == "int":
         return rng.randint(1, 10**6)
@@ -437,8 +447,10 @@ def contractible_pair(sr, rng, sym, fermionic, na=None, nb=None, ncon=None, maxn
         _, _, kind = pick_class(sr, rng, sym, fermionic)
     la = kw.pop("label_a", None)
     lb = kw.pop("label_b", None)
+    label_kind = kw.pop("label_kind", "int")
     if fermionic and la is None:
         la, lb = rng.sample(range(1, 1000), 2)
+        la, lb = as_label(label_kind, la), as_label(label_kind, lb)
     p_hist = kw.pop("p_hist", 0.0)
     p_mixclass = kw.pop("p_mixclass", 0.0)
     kind_b = kind
